@@ -491,16 +491,40 @@ Definition fail_ok (st : N) (warn : bool) : bool := N.eqb st 502 && warn.
    (Gen_Ret.v). *)
 Record after := mkAfter
   { a_client_closed : bool;   (* the proxy closes the client connection *)
-    a_parses_more : bool }.   (* bytes the client writes after the tunnel's end are read as HTTP *)
+    a_parses_more : bool;     (* bytes the client writes after the tunnel's end are read as HTTP *)
+    a_target_closed : bool }. (* Close() is called on the connection the proxy dialled *)
 
-Definition after_tunnel (ret_errclose closeable loop_returns defers_close : bool) : after :=
+(* [defers_cconn]: handleConnectRequest has `defer cconn.Close()`; the half
+   close in copySync (CloseWrite) is not a release: the descriptor stays, a
+   wrapping dialer never sees Close, a target still writing is never reset. *)
+Definition after_tunnel (ret_errclose closeable loop_returns defers_close defers_cconn : bool) : after :=
   if ret_errclose && closeable && loop_returns
-  then mkAfter defers_close false
-  else mkAfter false true.
+  then mkAfter defers_close false defers_cconn
+  else mkAfter false true defers_cconn.
 
 Definition after_tunnel_here : after :=
   after_tunnel tunnel_returns_errClose errClose_is_closeable
-               loop_returns_on_closeable loop_defers_conn_close.
+               loop_returns_on_closeable loop_defers_conn_close connect_defers_cconn_close.
+
+(* what a close-recording dialer saw ([None]: not recorded / tunnel not over) *)
+Definition target_release_ok (k : option bool) : bool :=
+  match k with Some b => b | None => true end.
+
+Definition target_release_agrees (a : after) (k : option bool) : bool :=
+  match k with Some b => Bool.eqb b (a_target_closed a) | None => true end.
+
+(* an end that keeps writing while its peer aborts: its write must fail (the
+   proxy closes its connection) within the bound *)
+Definition stream_ok (write_failed : bool) : bool := write_failed.
+
+(* State of a PREVIOUS exchange on the same client connection: the traffic
+   shaping context (an action at body offset [off]) a shaped response left
+   behind applies to the CONNECT response and the tunnel bytes unless handle()
+   replaces it before dispatching the CONNECT.  [None]: the tunnel's client-side
+   writer is the plain connection the LTS assumes ([Copy2] appends, nothing
+   cuts or delays). *)
+Definition tunnel_cut (reset_before_connect : bool) (stale : option N) : option N :=
+  if reset_before_connect then None else stale.
 
 (* what the client can do to find out: keep writing into the dead tunnel
    ([wfail]: a write failed = connection closed by the proxy; [canary]: an
